@@ -98,7 +98,12 @@ Keygen(sig, ign, c) ==
       ua2    == IF ign.star THEN SubSeq(ua1, 1, Min(Len(ua1), np)) ELSE ua1
       keys   == ONames(od1) \cup namedS
       nulls  == SetToSortedSeq(nameI \cap keys)
-      od2    == UpdAll(od1, [x \in 1..Len(nulls) |-> [n |-> nulls[x], v |-> NULL]])
+      params == namedS \cup Names(sig.ko)
+      \* pinned behaviour (known finding "ignored_varkw_null_marker"): an ignored name that arrives only through
+      \* **kw is kept as (name, NULL) when passed and is absent when not passed; idealised: it is dropped
+      od2a   == UpdAll(od1, [x \in 1..Len(nulls) |-> [n |-> nulls[x], v |-> NULL]])
+      od2    == IF "ignored_varkw_null_marker" \in Deviations THEN od2a
+                ELSE Remove(od2a, nameI \ params)
       kwn    == {c.k[x].n : x \in 1..Len(c.k)}
       konly  == Names(sig.ko)
       popped == IF ~ign.dstar THEN {}
